@@ -592,6 +592,10 @@ def check_C10(tier, seed):
     lines = [enc(s) for s in cases]
     res.coverage["input_distribution"] = dict(groups=dist, sizes=size_hist(cases))
     if res.harness_ok and res.model_ok:
+        # every public Input method of the real StrInput vs the extracted byte-level model (Model/StrBytes.v) and the generic
+        # definitions, on short strings with 1- to 4-byte characters at every offset
+        from .p_c10x import str_methods
+        str_methods(res, cases, lines)
         impl = {b: run_hx(["events", b], lines) for b in BACKENDS}
         model = {"str": run_mx(["events", "str"], lines), "buf16": run_mx(["events", "buf16"], lines),
                  "buf8": run_mx(["events", "buf8"], lines), "buf64": run_mx(["events", "buf64"], lines)}
